@@ -290,7 +290,8 @@ class CaseRun:
         return (p.stdout + p.stderr)[-4000:]
 
     def cleanup(self):
-        shutil.rmtree(self.dir, ignore_errors=True)
+        if not os.environ.get("VERIF_KEEP"):
+            shutil.rmtree(self.dir, ignore_errors=True)
 
 
 # ----------------------------------------------------------------------------- findings / verdict
@@ -395,8 +396,11 @@ class Report:
         return rc
 
 
-def setup_impl_path():
+def setup_impl_path(quiet=True):
     """Make `import kskm` resolve to /repo/src (current working tree)."""
+    if quiet:
+        import logging
+        logging.disable(logging.CRITICAL)
     sys.path.insert(0, str(SRC))
     for k in list(sys.modules):
         if k == "kskm" or k.startswith("kskm."):
@@ -405,3 +409,37 @@ def setup_impl_path():
 
 def rng(tag: str = "") -> random.Random:
     return random.Random(f"{seed()}:{tag}")
+
+
+def regen(*names: str):
+    """Regenerate coq/Gen/<names>.v from /repo's working tree (fail closed inside gen.py)."""
+    env = {**os.environ, "PYTHONPATH": str(SRC), "PYTHONHASHSEED": "0", "PYTHONDONTWRITEBYTECODE": "1"}
+    subprocess.run([PY, "-B", str(VERIF / "translate/gen.py"), *names], env=env)
+
+
+def classify(rep: "Report", props: dict, meta: list[dict], results: list[int], cases: list[str], runner: "CaseRun | None",
+             checkname: str, max_report=40):
+    """meta[i]: {'kind','desc','spec_ok','spec_msg','key'}. results[i]: 0 = model agrees with implementation."""
+    mismatch = 0
+    n_spec = 0
+    for m, r, c in zip(meta, results, cases):
+        if not m["spec_ok"]:
+            n_spec += 1
+            if n_spec <= max_report:
+                rep.violation("impl-vs-spec", f"{m['kind']}: {m['spec_msg']}",
+                              {"case": m["desc"], "kind": m["kind"], "coq_case": c[:3000]}, key=m.get("key"))
+        elif r != 0:
+            mismatch += 1
+            if mismatch <= max_report:
+                rep.violation("model-mismatch",
+                              f"correspondence {checkname} broke on a {m['kind']} case: model and implementation differ while the "
+                              f"implementation agrees with the independent reading of the property on this input",
+                              {"correspondence": checkname, "case": m["desc"], "kind": m["kind"], "coq_case": c[:3000], "coq_result": r,
+                               "runner_error": (getattr(runner, "last_error", "") or "")[:1500]}, found_input=False)
+    if not props["ok"]:
+        rep.violation("proof-broken", f"Props/{rep.prop_id}.v no longer checks: {getattr(rep, 'proof_failure', '')}",
+                      {"theorem_or_bridge": f"Props/{rep.prop_id}.v", "detail": getattr(rep, "proof_failure", ""),
+                       "log": props["log"][-1500:]}, found_input=False)
+    rep.coverage["model_mismatches"] = mismatch
+    rep.coverage["spec_disagreements"] = n_spec
+    return mismatch, n_spec
